@@ -57,13 +57,36 @@ def specs(tier):
     # a stride of the multi-nonterminal family (rule-less / unproductive nonterminals, factors shared between the rules
     # of one nonterminal, rules that are zero for some external values)
     from checks.c01_sumproduct import family_b
+    nz = 0
     for i, g in enumerate(family_b('quick')):
-        if i % (60 if tier == 'quick' else 12) == 7:
+        take = i % (60 if tier == 'quick' else 12) == 7
+        if not take and nz < (24 if tier == 'quick' else 200) and dead_rule_shares_factor(g):
+            take = True
+            nz += 1
+        if take:
             ir = dict(g)
             ir['nl'] = {'T': 2}
             ir['w'] = IR.generic_weights(ir, stride=5)
             out.append(('B', ir))
     return out
+
+
+def dead_rule_shares_factor(g):
+    """some nonterminal reachable from the start has a rule that is identically zero (it uses a rule-less nonterminal)
+    and a live rule using one of the same terminal factors"""
+    has_rule = {r[0] for r in g['rules']}
+    reach = IR.reach(IR.nt_graph(g))
+    for nt in g['nt']:
+        if nt != g['start'] and nt not in reach[g['start']]:
+            continue
+        rs = [r for r in g['rules'] if r[0] == nt]
+        dead = [r for r in rs if any(l in g['nt'] and l not in has_rule for l, _ in r[3])]
+        live = [r for r in rs if all(l not in g['nt'] or l in has_rule for l, _ in r[3])]
+        for d in dead:
+            td = {l for l, _ in d[3] if l in g['term']}
+            if any(td & {l for l, _ in x[3] if l in g['term']} for x in live):
+                return True
+    return False
 
 
 def gen_cases(tier, seed):
